@@ -519,6 +519,22 @@ def gen_attr(rng, shape, allow_self, helper_ok, derive_suffix):
     at.pieces.append(("t", rng.choice(TEXTS) if rng.random() < 0.6 and not single else ""))
     if nph == 0 and not at.value():
         at.pieces.append(("t", rng.choice(["text", "é", "unit!", "{{}}"])))
+    # an alias carrying the name of a field shadows the field: `{x:p}` then is the alias, not a re-bound field
+    if shape.fields and not single and rng.random() < 0.06 and len(at.pos) + len(at.named) < 5:
+        cands = [f for i, f in enumerate(shape.fields) if f.lit not in aliases and i not in at.captured
+                 and re.match(r"^[a-z_]\w*$", f.lit) and f.lit not in KEYWORDS]
+        bares = [e for e in bare if "p" in e[1]]
+        if cands and bares:
+            f = rng.choice(cands)
+            t, traits, count, b = rng.choice(bares)
+            a = Arg(t, traits, count, alias=f.lit, bare=b)
+            a.used = True
+            aliases.add(f.lit)
+            at.named.append(a)
+            ph = Ph()
+            ph.arg, ph.target, ph.ty, ph.colon = f.lit, ("alias", f.lit), "p", True
+            at.pieces.append(("p", ph))
+            at.pieces.append(("t", rng.choice(["", " ", "/"])))
     # every argument passed must be used (format_args! rejects the literal otherwise)
     for i, a in enumerate(at.pos):
         if not a.used:
@@ -911,8 +927,8 @@ def check(ctx, cases, res):
 def run(ctx):
     rng = ctx.rng
     cases = []
-    n_struct = ctx.pick(800, 11000)
-    n_enum = ctx.pick(400, 5000)
+    n_struct = ctx.pick(4000, 36000)
+    n_enum = ctx.pick(2000, 18000)
     nvals = ctx.pick(3, 4)
     for i in range(n_struct):
         c = struct_case("s%d" % i, rng, nvals)
@@ -932,7 +948,7 @@ def run(ctx):
         "rename_all model restricted to names made of capitalised ASCII words of >= 2 letters (all casing conventions agree on their word boundaries)",
         "addresses printed by {:p} are compared within one process on one value that is not moved between the two calls",
     ]
-    res = l2.build_and_run(ctx, "fmt", cases, prelude=PRELUDE)
+    res = l2.build_and_run(ctx, "fmt", cases, prelude=PRELUDE, max_rounds=10)
     ctx.extra["build_rounds"] = res.rounds
 
     check(ctx, cases, res)
@@ -949,7 +965,7 @@ def run(ctx):
         else:
             ctx.violate("accepted:%s" % c.cls[1], "%s compiled" % c.meta["what"], case=c.meta, items=c.items)
 
-    rename_breadth(ctx, ctx.pick(1500, 12000))
+    rename_breadth(ctx, ctx.pick(4000, 30000))
 
     picks = [c for c in cases if not c.trivial][:400]
     rng.shuffle(picks)
